@@ -28,14 +28,14 @@ def dbD17 : Db :=
 
 def reqTop : Request := ⟨nTop, none, false, none, false, []⟩
 
-def envOf : Res → Option Env
+def envOf : Res → Option Setup.Env
   | .ok s => some s.env
   | _ => none
 
 /-- From the empty environment `setup top` succeeds and ends with `SETUP_A = a 2`, while `PATH` still holds
 `dir(a 1)/2`, `L = dir(a 1)`, and `b` — required by the set-up `a`… of version 1 — is not set up. -/
 theorem C01_nested_switch_witness :
-    envOf (runSetup dbD17 20 reqTop Env.empty) =
+    envOf (runSetup dbD17 20 reqTop Setup.Env.empty) =
       some ⟨[(nA, v2), (nTop, v1)], [(nA, .own (nA, v2) []), (nTop, .own (nTop, v1) [])],
             [(PATH, [.own (nA, v1) [2], .own (nA, v2) [1]])], [(ALATE, .own (nA, v1) [])]⟩ := by
   decide +kernel
@@ -54,7 +54,7 @@ def dbDiamond : Db :=
 
 /-- the request succeeds, `c` ends at version 2 and no element of `c 1` is left -/
 theorem C01_nonvacuous :
-    envOf (runSetup dbDiamond 20 reqTop Env.empty) =
+    envOf (runSetup dbDiamond 20 reqTop Setup.Env.empty) =
       some ⟨[(nC, v2), (nB, v1), (nA, v1), (nTop, v1)],
             [(nC, .own (nC, v2) []), (nB, .own (nB, v1) []), (nA, .own (nA, v1) []), (nTop, .own (nTop, v1) [])],
             [(PATH, [.own (nC, v2) [1], .own (nB, v1) [1], .own (nA, v1) [1]])], []⟩ := by
